@@ -93,6 +93,34 @@ def scan_original_buffer():
 
 
 # ---- M8: in-memory host file system
+_WRITE_ORDER = {}
+
+
+def _write_truncates_first(real_writer):
+    """does the real write_binary_contents leave an existing file truncated when the buffer cannot be written?"""
+    key = id(real_writer)
+    if key not in _WRITE_ORDER:
+        import tempfile
+        with NoTracing():
+            d = tempfile.mkdtemp(prefix="verif-memfs-")
+            path = os.path.join(d, "probe.bin")
+            try:
+                with open(path, "wb") as f:
+                    f.write(b"probe")
+                try:
+                    real_writer.__func__(path, [300]) if hasattr(real_writer, "__func__") else real_writer(path, [300])
+                except Exception:  # noqa: BLE001
+                    pass
+                _WRITE_ORDER[key] = os.path.getsize(path) != 5
+            finally:
+                try:
+                    os.remove(path)
+                    os.rmdir(d)
+                except OSError:
+                    pass
+    return _WRITE_ORDER[key]
+
+
 class MemFS:
     """path -> list of ints (binary) or list of str lines (assembly source); absent = no such file."""
 
@@ -123,6 +151,16 @@ class MemFS:
             return fs.files[filename][:]
 
         def write_bin(filename, buffer):
+            # the host write: open(filename, "wb") truncates, bytearray(buffer) refuses anything outside 0..255.  Which
+            # of the two the real SourceFile.write_binary_contents does FIRST is probed on the real function (natively,
+            # on a scratch file) so that the model follows the code under test
+            with NoTracing():
+                bad = any((type(x) is int and not (0 <= x <= 255)) for x in buffer)
+            if bad:
+                if _write_truncates_first(fs._saved[2]):
+                    fs.writes.append(filename)
+                    fs.files[filename] = []
+                raise ValueError("byte must be in range(0, 256)")
             fs.writes.append(filename)
             fs.files[filename] = buffer[:]
 
